@@ -17,6 +17,14 @@ CHECKS = {
    text="Programs enumerated by TLC from spec/Gen.tla (optimiser-shaped alphabets: store-then-load pairs, non-adjacent loads, repeated stores, requested slot ids; control and loop alphabets; recursive routines) are compiled under every setting {scratch_slots} x {frame_pointers} x versions 2..10; TLC (differential part of spec/Refine.tla) runs all texts of a recipe on spec/AVM.tla over its context domain and requires equal verdict, return value, logs, writes, inner transactions and user-numbered slots, and - optimised vs unoptimised text of the same version and convention - equal stack snapshots at every routine exit.",
    note="one OptimizeOptions object per setting is reused across compilations (as Router.compile_program does); trusts AVM.tla",
    tech="TLA+ differential check (TLC): product of AVM runs of the same Gen-generated program under all option settings, exit-stack snapshots compared"),
+ "C06": dict(cat="model_checking", ref="5 C06",
+   text="TLC enumerates the ARC-4 type universes of spec/ARC4Gen.tla (all basic types, arrays of 1/2/3/8/9 elements, tuples up to 3 members, bool runs 7..17, nested shapes) together with signature string, dynamic-ness, static length, sample values and reference encodings computed in TLA+ (spec/ARC4.tla). For each (type, value) the program assembling the value with set(...) and logging encode() is compiled (main routine and subroutine/frame variables, versions 6/8/9 quick, 5..10 thorough) and TLC runs it on spec/AVM.tla against 'log the reference encoding' (spec/Refine.tla); type facts are compared three-way (TLA+, PyTeal, algosdk); out-of-range literals must be rejected and out-of-range expression operands must fail.",
+   note="ARC4.tla is cross-checked against algosdk.abi on every value used (a disagreement is a machinery failure, not a violation)",
+   tech="TLA+ ARC-4 codec specification (TLC) as oracle; emitted encoder programs executed on the AVM spec"),
+ "C07": dict(cat="model_checking", ref="5 C07",
+   text="For the type universes of spec/ARC4Gen.tla, programs that decode application argument 0 and log one component (tuple[i], named-tuple field, array[i] with constant and run-time index, length(), get()) are compiled and run by TLC on spec/AVM.tla with arg0 = the reference encoding computed in TLA+; expected behaviour = log the component's reference encoding, or fail for an array index outside the bounds (length, length+1, padding bit, 65535).",
+   note="two recorded findings: array element access has no bounds check (bool padding bits; dynamic elements at index == length)",
+   tech="TLA+ ARC-4 codec specification (TLC) as oracle; emitted decoder/accessor programs executed on the AVM spec"),
  "C10": dict(cat="model_checking", ref="5 C10",
    text="A parameter grid (1..300 live variables x requested-id patterns incl. adjacent runs, 0/255 and duplicates x DynamicScratchVar views x main/subroutine placement x option settings) is enumerated completely; every variable receives a distinct marker and is read back. TLC runs each compiled text on spec/AVM.tla against the cell semantics of spec/PyTealSem.tla (read-back, index(), DynamicScratchVar) and compares all option settings incl. final user-numbered slots (spec/Refine.tla); TLC judges compile outcomes against the slot-limit model of spec/Accepts.tla (spec/Compile.tla).",
    note="frame-local ABI storage is covered by the ABI checks; the 256 limit is judged on unoptimised compilations only (the optimiser may legitimately remove a variable)",
